@@ -1,6 +1,11 @@
 """C09 — eventuals and futures become ready exactly once and wake every waiter.
 Ties: T1 (token skeletons of the eventual / future / wait-list / futex functions), T3 (vsched traces of sc_evfut
-validated against Model.Eventual and Model.Future), property monitors in the scenario."""
+validated against Model.Eventual and Model.Future, incl. callback begin/end, reset and free as protocol operations),
+property monitors in the scenario.
+Scenario dimensions: object kind and size, callers of the three kinds, surplus sets, waiters, testers (lock-free future
+testers may poll until ready, also while the callback — which contains a schedule point — is running), phases separated
+by a reset, a reset concurrent with the sets of a phase (linearizability oracle), the object freed by main at the end or
+by the woken waiter of the last phase at once ("wait; free") under a quarantining `free` (write-after-free monitor)."""
 from vlib import common as C
 from vlib import t1, t3, t3_sync, vs
 
@@ -10,7 +15,10 @@ ASSUMPTIONS = [
     "the value buffer and the compartment array are separate allocations, so their contents are not in the object's snapshot: the model's value / array are compared with what callers read at their returns, what the callback receives, and a white-box dump at the end of each phase; snapshots compare ready / counter / num_compartments / wait-list emptiness at every lock release",
     "ABT_eventual_set is modelled with exactly nbytes bytes (partial copies not modelled); nbytes > capacity is the modelled error branch",
     "the wait-list sub-protocol (BLOCKED/READY stores, futex, ULT suspension and resume) is Model.WaitList's (lead); a waiter is 'woken' at the broadcaster's dequeue event (E 52); monitors + deadlock detection check that it really returns",
-    "reset / free while a waiter is blocked is undefined by the API and not explored (reset runs between phases); the models themselves allow it",
+    "reset / free while a waiter is blocked is undefined by the API and not explored: a concurrent reset is explored in phases without waiters (concurrent with sets and tests), free is explored by main at the end and by the single waiter of the last phase right after its wait returned (possibly while the setter that woke it is still inside set); the models guard free with 'lock free and nobody queued' (the code's acquire + UB assertion) and allow reset at any time",
+    "the future callback is user code: the scenario's callback contains one schedule point between its invocation and its return (events cbBegin / cb); what the callback itself may call is the API's restriction, not explored",
+    "write-after-free detection: the scenario program interposes free (glibc __libc_free) and keeps + poisons the object's blocks once the library frees them, so nothing else can live there; every atomic operation on a freed block and every changed poison byte (checked at the end) is reported.  Plain reads of freed memory are not detected",
+    "linearizability oracle of the concurrent-reset phases: outcomes are compared with every split 'k sets before the reset' compatible with real time (sets returned before the reset was called are before it, sets begun after it returned are after it); the order among the sets themselves is not constrained further",
     "1.x API build: a tasklet calling ABT_eventual_wait / ABT_future_wait is rejected before touching the object (modelled and tested); tasklets set and test",
     "num_compartments = 0: the code (and the API documentation) never runs the callback although waiters return; the literal property text ('the callback runs exactly once, before any waiter returns', quantifier includes 0) is not satisfied for that count — theorem fut_zero_compartments states what happens; reported as a text/implementation discrepancy, the monitors check the documented behaviour",
 ]
@@ -60,7 +68,7 @@ UNREACHABLE_HERE = _keys("Eventual", {"acq0": ["waiting", "woken"], "acq1": ["wa
 def scenario_params(rng):
     """One program.  Dimensions: object kind and size (buffer bytes / compartments incl. 0 and 1), callers of the three
     kinds, surplus sets, waiters / testers (lock-free future testers may poll until ready), phases separated by a reset,
-    a reset concurrent with the sets of a phase (futures: y&4), and who frees the object and when (main at the end, or
+    a reset concurrent with the sets of a phase (y&4), and who frees the object and when (main at the end, or
     the waiter of the last phase as soon as its wait returned: y&8)."""
     nes = 1 + rng.below(3)
     phases = 1 + rng.below(3)
@@ -74,7 +82,7 @@ def scenario_params(rng):
         nset = 1 + rng.below(3)
         nwait = rng.below(4)
         ntest = rng.below(3)
-        return ["ev", nes, phases, nset, nwait, ntest, nbytes, ext, task, rng.below(2) | (special & 8)]
+        return ["ev", nes, phases, nset, nwait, ntest, nbytes, ext, task, rng.below(2) | special]
     n = [0, 1, 2, 5, 2, 1, 3][rng.below(7)]
     extra = rng.below(3)
     nwait = rng.below(4)
